@@ -443,6 +443,12 @@ package saml
 //@        return exists(0, len(req.ServiceProviderMetadata.SPSSODescriptors[d].AssertionConsumerServices), func(e int) bool {
 //@          return req.ServiceProviderMetadata.SPSSODescriptors[d].AssertionConsumerServices[e] == *req.ACSEndpoint }) }) }
 
+//@ -- the endpoint and the role descriptor the request carries belong together: the keys the assertion is encrypted to are
+//@ -- looked up in the descriptor, the assertion is sent to the endpoint
+//@ go func sameRole(req *IdpAuthnRequest) bool {
+//@    return req.ACSEndpoint != nil && req.SPSSODescriptor != nil &&
+//@      exists(0, len(req.SPSSODescriptor.AssertionConsumerServices), func(e int) bool {
+//@        return req.SPSSODescriptor.AssertionConsumerServices[e] == *req.ACSEndpoint }) }
 //@ contract (*IdentityProvider).Metadata
 //@ requires[cfg] cert: idp.Certificate != nil
 //@ ensures[C05,C06] shape: result != nil && len(result.IDPSSODescriptors) == 1 && result.IDPSSODescriptors[0].WantAuthnRequestsSigned == nil
@@ -737,6 +743,7 @@ package saml
 //@ assert@call[C05,C19] WriteResponse #1 (rq *IdpAuthnRequest) uses session *Session only_registered_and_authenticated:
 //@    session != nil && rq.IDP == idp && registeredACS(rq) && rq.ACSEndpoint.Binding == HTTPPostBinding &&
 //@    RegistryHas(idp.ServiceProviderProvider, serviceProviderID, rq.ServiceProviderMetadata) && rq.RelayState == relayState
+//@ assert@call[C05,C06,C08] WriteResponse #1 (rq *IdpAuthnRequest) endpoint_of_the_selected_role: sameRole(rq)
 //@ loop 1 vars req *IdpAuthnRequest
 //@ invariant[C05] not_yet: req.ACSEndpoint == nil
 
